@@ -358,9 +358,9 @@ func main() {
 		Assumptions: []string{"own bitwise reference of matching/conflict"},
 		Cases: func(t string) int {
 			if t == "thorough" {
-				return 56 + nPairs + 300000
+				return 56 + nPairs + 3000000
 			}
-			return 56 + nPairs + 25000
+			return 56 + nPairs + 80000
 		},
 		Floor: func(t string) int {
 			if t == "thorough" {
